@@ -207,15 +207,32 @@ STRAIGHT_FAULTS = ["A = \"hi\"", "A$ = 5", "X = S$ = T$", "S$ = S$ = T$", "X = N
                    "A(1,2) = 3 : PRINT A(1)", "PRINT A$ < 1", "X = 1 < \"a\""]
 
 
+# IF lines whose THEN clause leaves the line or pauses (GOSUB, INPUT) and comes back to meet the ELSE, behind
+# other statements and other IFs on the same line: every combination of truth values
+ELSE_LEADS = ['', 'IF A THEN PRINT "A" : ', 'PRINT "X" : ', 'IF A THEN PRINT "A" : IF A THEN PRINT "AA" : ']
+ELSE_THENS = ['GOSUB 100', 'INPUT Z', 'PRINT "T"', 'Z = 1']
+ELSE_ELSES = ['PRINT "NOT B"', 'GOSUB 100', 'Z = 2']
+ELSE_RESUME = [(lead, a, b, then) for lead in ELSE_LEADS for a in (0, 1) for b in (0, 1) for then in ELSE_THENS]
+
+
+def else_resume_program(r, k):
+    lead, a, b, then = ELSE_RESUME[k]
+    return [f"10 A = {a} : B = {b}", f"20 {lead}IF B THEN {then} ELSE {r.choice(ELSE_ELSES)}", '30 PRINT "END" Z', "40 END",
+            '100 PRINT "SUB"', "110 RETURN"]
+
+
 def run_c06(chk):
     h = core.Harness(chk.harness_path)
     n = 160 if chk.tier == "quick" else 5000
     an_cases = []
     sessions = []
-    for i in range(n):
+    for i in range(n + len(ELSE_RESUME)):
         r = chk.rng.fork(("c06", i))
         flavour = r.weighted([("typed", 35), ("faulty", 30), ("straight", 20), ("tree", 15)])
-        if flavour == "tree":
+        if i >= n:
+            flavour = "else-resume"
+            lines = else_resume_program(r, i - n)
+        elif flavour == "tree":
             # structured programs from the syntax-tree generator of C03: every IF/ELSE form with statements before and
             # after it on the line, transfers inside THEN, nested loops, subroutines, DEF FN
             from . import refsem
